@@ -110,7 +110,26 @@ func C13(c *Ctx) {
 		"A <- B \"a\\qc\"\nB <- 'b'\n", "A <- B \"unterminated", "A <- B\nB \"bad\\q name\" <- 'b'\n", "A <- B 'x\xffy'\nB <- 'b'\n", "A <- B \"\\u12\" C\nB <- 'b'\nC <- 'c'\n", "A <- b:B [\\q]\nB <- 'b'\n",
 		// runes whose case folding crosses the Basic Latin boundary
 		"{\npackage p\n}\nA <- [K\u017f\u0130\u0131\u212a]i [\u212a-\u212b]i '\u017f'i \"\u212a\"i [^\u0130]i [\u00b5\u03bc\u1e9e\u00df]i\n",
+		// a dash next to a Unicode class escape inside a class
+		"A = [0-9_-\\pL]\n", "A = [a-\\pL]\n", "A = [a\\pL-z]\n", "A = [\\pL-]\n", "A = [-\\pL]\n", "A = [a-\\p{Lu}-z]i\n", "A = [^\\p{Nd}-\\p{Lu}]\n",
 		"A = 'ab'\n", "A = ''\n", "A = \"\\U00110000\"\n", "A = \"\\ud800\"\n", "A = `unterminated\n", "A = \"a\" /* unterminated\n", "A = \"a\" { if x { }\n", "A = %{L\n", "A = \"a\" //{L,} \"b\"\n", "A = \"a\" //{} \"b\"\n", "{\npackage p\n}\nA <- &A 'a' / 'b'\n", "{\npackage p\n}\nA <- !. / W A\nW <- [ \\t]*\n",
+	}
+	// densely cross-referencing (but not left-recursive) rule graphs: analyses that walk the
+	// reference graph must not take time exponential in the number of rules
+	for _, n := range []int{12, 15, 18} {
+		var sb strings.Builder
+		sb.WriteString("{\npackage p\n}\n")
+		for i := 0; i < n; i++ {
+			fmt.Fprintf(&sb, "D%d <- \"t%d\" ( ", i, i)
+			for k := 0; k < n; k++ {
+				if k > 0 {
+					sb.WriteString(" / ")
+				}
+				fmt.Fprintf(&sb, "D%d", (i+k+1)%n)
+			}
+			sb.WriteString(" )? x:D" + fmt.Sprint((i+3)%n) + "* \"e\"\n")
+		}
+		nearMiss = append(nearMiss, sb.String())
 	}
 	var jobs []job
 	pickFlags := func() []string { return c13FlagCombos[rng.Intn(len(c13FlagCombos))] }
